@@ -183,4 +183,245 @@ theorem identity_right (a : Fin 3 → ℝ) : SO3Mrp.product.r_vec a (SO3Mrp.iden
 example : mrpDen ![1/2, 0, 0] ![0, 3, 0] ≠ 0 := by simp [mrpDen, nsq, dot3]; norm_num
 end SO3Mrp
 
+
+/-! ## SO(3), DCM form.  Valid = orthonormal. -/
+namespace SO3Dcm
+theorem toMatrix_product (a b : Fin 9 → ℝ) :
+    SO3Dcm.toMatrix.M_mat (SO3Dcm.product.r_vec a b)
+      = SO3Dcm.toMatrix.M_mat a * SO3Dcm.toMatrix.M_mat b := by
+  mat_entries <;> cas_mat <;> ring
+theorem toMatrix_identity : SO3Dcm.toMatrix.M_mat (SO3Dcm.identity.r_vec (α := ℝ)) = 1 := by
+  mat_entries <;> simp [cas_defs, cas_real]
+theorem toMatrix_inverse (a : Fin 9 → ℝ) :
+    SO3Dcm.toMatrix.M_mat (SO3Dcm.inverse.r_vec a) = (SO3Dcm.toMatrix.M_mat a).transpose := by
+  mat_entries <;> simp [cas_defs, cas_real]
+theorem toMatrix_inverse_left (a : Fin 9 → ℝ)
+    (h : (SO3Dcm.toMatrix.M_mat a).transpose * SO3Dcm.toMatrix.M_mat a = 1) :
+    SO3Dcm.toMatrix.M_mat (SO3Dcm.inverse.r_vec a) * SO3Dcm.toMatrix.M_mat a = 1 := by
+  rw [toMatrix_inverse, h]
+theorem toMatrix_inverse_right (a : Fin 9 → ℝ)
+    (h : (SO3Dcm.toMatrix.M_mat a).transpose * SO3Dcm.toMatrix.M_mat a = 1) :
+    SO3Dcm.toMatrix.M_mat a * SO3Dcm.toMatrix.M_mat (SO3Dcm.inverse.r_vec a) = 1 := by
+  rw [toMatrix_inverse]; exact mul_eq_one_comm.mp h
+theorem identity_left (a : Fin 9 → ℝ) : SO3Dcm.product.r_vec (SO3Dcm.identity.r_vec) a = a := by
+  funext i; fin_cases i <;> cas_mat
+theorem identity_right (a : Fin 9 → ℝ) : SO3Dcm.product.r_vec a (SO3Dcm.identity.r_vec) = a := by
+  funext i; fin_cases i <;> cas_mat
+/-- the matrix-to-element conversion returns the same element -/
+theorem fromMatrix_toMatrix (a : Fin 9 → ℝ) :
+    SO3Dcm.fromMatrix.r_vec (fun i j => SO3Dcm.toMatrix.M_mat a i j) = a := by
+  funext i; fin_cases i <;> simp [cas_defs, cas_real]
+end SO3Dcm
+
+/-! ## from_Matrix on SO(2), SE(2): same element back for θ in (-π, π] -/
+namespace SO2
+theorem fromMatrix_toMatrix (a : ℝ) (h1 : -Real.pi < a) (h2 : a ≤ Real.pi) :
+    SO2.fromMatrix.r (fun i j => SO2.toMatrix.M_mat a i j) = a := by
+  simp [cas_defs, cas_real, CasReal.atan2]
+  have : (⟨Real.cos a, Real.sin a⟩ : ℂ) = Complex.exp (a * Complex.I) := by
+    apply Complex.ext <;> simp [Complex.exp_ofReal_mul_I_re, Complex.exp_ofReal_mul_I_im]
+  rw [this, Complex.arg_exp_mul_I, toIocMod_eq_self]
+  constructor <;> [linarith; (have := Real.pi_pos; linarith)]
+/-- for every angle the returned element has the same matrix -/
+theorem toMatrix_fromMatrix_toMatrix (a : ℝ) :
+    SO2.toMatrix.M_mat (SO2.fromMatrix.r (fun i j => SO2.toMatrix.M_mat a i j)) = SO2.toMatrix.M_mat a := by
+  have key : (⟨Real.cos a, Real.sin a⟩ : ℂ) = Complex.exp (a * Complex.I) := by
+    apply Complex.ext <;> simp [Complex.exp_ofReal_mul_I_re, Complex.exp_ofReal_mul_I_im]
+  have hn : ‖Complex.exp (a * Complex.I)‖ = 1 := Complex.norm_exp_ofReal_mul_I _
+  have hz : Complex.exp (a * Complex.I) ≠ 0 := Complex.exp_ne_zero _
+  have hc : Real.cos (Complex.arg (Complex.exp (a * Complex.I))) = Real.cos a := by
+    rw [Complex.cos_arg hz, hn, Complex.exp_ofReal_mul_I_re]; simp
+  have hs : Real.sin (Complex.arg (Complex.exp (a * Complex.I))) = Real.sin a := by
+    rw [Complex.sin_arg, hn, Complex.exp_ofReal_mul_I_im]; simp
+  mat_entries <;> simp [cas_defs, cas_real, CasReal.atan2, key, hc, hs]
+end SO2
+
+namespace SE2
+theorem toMatrix_fromMatrix_toMatrix (a : Fin 3 → ℝ) :
+    SE2.toMatrix.M_mat (SE2.fromMatrix.r_vec (fun i j => SE2.toMatrix.M_mat a i j)) = SE2.toMatrix.M_mat a := by
+  have key : (⟨Real.cos (a 2), Real.sin (a 2)⟩ : ℂ) = Complex.exp ((a 2) * Complex.I) := by
+    apply Complex.ext <;> simp [Complex.exp_ofReal_mul_I_re, Complex.exp_ofReal_mul_I_im]
+  have hn : ‖Complex.exp ((a 2) * Complex.I)‖ = 1 := Complex.norm_exp_ofReal_mul_I _
+  have hz : Complex.exp ((a 2) * Complex.I) ≠ 0 := Complex.exp_ne_zero _
+  have hc : Real.cos (Complex.arg (Complex.exp ((a 2) * Complex.I))) = Real.cos (a 2) := by
+    rw [Complex.cos_arg hz, hn, Complex.exp_ofReal_mul_I_re]; simp
+  have hs : Real.sin (Complex.arg (Complex.exp ((a 2) * Complex.I))) = Real.sin (a 2) := by
+    rw [Complex.sin_arg, hn, Complex.exp_ofReal_mul_I_im]; simp
+  mat_entries <;> simp [cas_defs, cas_real, CasReal.atan2, key, hc, hs]
+end SE2
+
+/-! ## SE(3) -/
+namespace SE3Quat
+def rot (a : Fin 7 → ℝ) : Fin 4 → ℝ := ![a 3, a 4, a 5, a 6]
+/-- holds for every pair (unit or not) -/
+theorem toMatrix_product (a b : Fin 7 → ℝ) :
+    SE3Quat.toMatrix.M_mat (SE3Quat.product.r_vec a b)
+      = SE3Quat.toMatrix.M_mat a * SE3Quat.toMatrix.M_mat b := by
+  mat_entries <;> cas_mat <;> ring
+theorem toMatrix_identity : SE3Quat.toMatrix.M_mat (SE3Quat.identity.r_vec (α := ℝ)) = 1 := by
+  mat_entries <;> simp [cas_defs, cas_real]
+theorem toMatrix_inverse_left (a : Fin 7 → ℝ) (h : qnormSq (rot a) = 1) :
+    SE3Quat.toMatrix.M_mat (SE3Quat.inverse.r_vec a) * SE3Quat.toMatrix.M_mat a = 1 := by
+  have h' : a 3 ^ 2 + a 4 ^ 2 + a 5 ^ 2 + a 6 ^ 2 = 1 := by simpa [qnormSq, rot] using h
+  mat_entries <;> cas_mat <;>
+    first
+    | ring1
+    | linear_combination (a 3 ^ 2 + a 4 ^ 2 + a 5 ^ 2 + a 6 ^ 2 + 1) * h'
+theorem toMatrix_inverse_right (a : Fin 7 → ℝ) (h : qnormSq (rot a) = 1) :
+    SE3Quat.toMatrix.M_mat a * SE3Quat.toMatrix.M_mat (SE3Quat.inverse.r_vec a) = 1 :=
+  mul_eq_one_comm.mp (toMatrix_inverse_left a h)
+theorem identity_left (a : Fin 7 → ℝ) : SE3Quat.product.r_vec (SE3Quat.identity.r_vec) a = a := by
+  funext i; fin_cases i <;> cas_mat
+theorem identity_right (a : Fin 7 → ℝ) : SE3Quat.product.r_vec a (SE3Quat.identity.r_vec) = a := by
+  funext i; fin_cases i <;> cas_mat
+theorem product_assoc (a b c : Fin 7 → ℝ) :
+    SE3Quat.product.r_vec (SE3Quat.product.r_vec a b) c
+      = SE3Quat.product.r_vec a (SE3Quat.product.r_vec b c) := by
+  funext i; fin_cases i <;> cas_mat <;> ring
+end SE3Quat
+
+namespace SE3Mrp
+def rot (a : Fin 6 → ℝ) : Fin 3 → ℝ := ![a 3, a 4, a 5]
+def tr (a : Fin 6 → ℝ) : Fin 3 → ℝ := ![a 0, a 1, a 2]
+
+theorem toMatrix_spec (a : Fin 6 → ℝ) :
+    SE3Mrp.toMatrix.M_mat a = se3Mat (mrpMat (rot a)) (tr a) := by
+  have h : (1 + (a 3 * a 3 + a 4 * a 4 + a 5 * a 5)) ≠ 0 := by
+    nlinarith [mul_self_nonneg (a 3), mul_self_nonneg (a 4), mul_self_nonneg (a 5)]
+  have h' : (1 + (a 3 ^ 2 + a 4 ^ 2 + a 5 ^ 2)) ≠ 0 := by positivity
+  mat_entries <;> simp [cas_defs, cas_real, se3Mat, mrpMat, qmat, mrpQ, nsq, rot, tr] <;> field_simp <;> ring
+theorem product_rot (a b : Fin 6 → ℝ) :
+    rot (SE3Mrp.product.r_vec a b) = mrpMul (rot a) (rot b) := by
+  funext i; fin_cases i <;>
+    simp [cas_defs, cas_real, rot, mrpMul, mrpNum, mrpDen, nsq, dot3, cross] <;> ring
+theorem product_tr (a b : Fin 6 → ℝ) :
+    tr (SE3Mrp.product.r_vec a b) = (mrpMat (rot a)).mulVec (tr b) + tr a := by
+  have h : (1 + (a 3 * a 3 + a 4 * a 4 + a 5 * a 5)) ≠ 0 := by
+    nlinarith [mul_self_nonneg (a 3), mul_self_nonneg (a 4), mul_self_nonneg (a 5)]
+  have h' : (1 + (a 3 ^ 2 + a 4 ^ 2 + a 5 ^ 2)) ≠ 0 := by positivity
+  funext i; fin_cases i <;>
+    simp [cas_defs, cas_real, rot, tr, mrpMat, qmat, mrpQ, nsq] <;>
+    field_simp <;> ring
+theorem toMatrix_product (a b : Fin 6 → ℝ) (h : mrpDen (rot a) (rot b) ≠ 0) :
+    SE3Mrp.toMatrix.M_mat (SE3Mrp.product.r_vec a b)
+      = SE3Mrp.toMatrix.M_mat a * SE3Mrp.toMatrix.M_mat b := by
+  rw [toMatrix_spec, toMatrix_spec, toMatrix_spec, se3Mat_mul, product_rot, product_tr, mrpMat_mul _ _ h]
+theorem toMatrix_identity : SE3Mrp.toMatrix.M_mat (SE3Mrp.identity.r_vec (α := ℝ)) = 1 := by
+  mat_entries <;> simp [cas_defs, cas_real]
+theorem inverse_rot (a : Fin 6 → ℝ) : rot (SE3Mrp.inverse.r_vec a) = -rot a := by
+  funext i; fin_cases i <;> simp [cas_defs, cas_real, rot]
+theorem inverse_tr (a : Fin 6 → ℝ) :
+    tr (SE3Mrp.inverse.r_vec a) = -((mrpMat (-rot a)).mulVec (tr a)) := by
+  have h : (1 + (a 3 * a 3 + a 4 * a 4 + a 5 * a 5)) ≠ 0 := by
+    nlinarith [mul_self_nonneg (a 3), mul_self_nonneg (a 4), mul_self_nonneg (a 5)]
+  have h' : (1 + (a 3 ^ 2 + a 4 ^ 2 + a 5 ^ 2)) ≠ 0 := by positivity
+  funext i; fin_cases i <;>
+    simp [cas_defs, cas_real, rot, tr, mrpMat, qmat, mrpQ, nsq] <;>
+    field_simp <;> ring
+theorem toMatrix_inverse_left (a : Fin 6 → ℝ) :
+    SE3Mrp.toMatrix.M_mat (SE3Mrp.inverse.r_vec a) * SE3Mrp.toMatrix.M_mat a = 1 := by
+  rw [toMatrix_spec, toMatrix_spec, se3Mat_mul, inverse_rot, inverse_tr, mrpMat_neg_mul]
+  rw [← se3Mat_one]; congr 1; simp
+theorem toMatrix_inverse_right (a : Fin 6 → ℝ) :
+    SE3Mrp.toMatrix.M_mat a * SE3Mrp.toMatrix.M_mat (SE3Mrp.inverse.r_vec a) = 1 :=
+  mul_eq_one_comm.mp (toMatrix_inverse_left a)
+theorem identity_left (a : Fin 6 → ℝ) : SE3Mrp.product.r_vec (SE3Mrp.identity.r_vec) a = a := by
+  funext i; fin_cases i <;> cas_mat
+theorem identity_right (a : Fin 6 → ℝ) : SE3Mrp.product.r_vec a (SE3Mrp.identity.r_vec) = a := by
+  funext i; fin_cases i <;> cas_mat
+end SE3Mrp
+
+
+/-! ## SE_2(3) -/
+namespace SE23Quat
+def rot (a : Fin 10 → ℝ) : Fin 4 → ℝ := ![a 6, a 7, a 8, a 9]
+/-- holds for every pair (unit or not) -/
+theorem toMatrix_product (a b : Fin 10 → ℝ) :
+    SE23Quat.toMatrix.M_mat (SE23Quat.product.r_vec a b)
+      = SE23Quat.toMatrix.M_mat a * SE23Quat.toMatrix.M_mat b := by
+  mat_entries <;> cas_mat <;> ring
+theorem toMatrix_identity : SE23Quat.toMatrix.M_mat (SE23Quat.identity.r_vec (α := ℝ)) = 1 := by
+  mat_entries <;> simp [cas_defs, cas_real]
+theorem toMatrix_inverse_left (a : Fin 10 → ℝ) (h : qnormSq (rot a) = 1) :
+    SE23Quat.toMatrix.M_mat (SE23Quat.inverse.r_vec a) * SE23Quat.toMatrix.M_mat a = 1 := by
+  have h' : a 6 ^ 2 + a 7 ^ 2 + a 8 ^ 2 + a 9 ^ 2 = 1 := by simpa [qnormSq, rot] using h
+  mat_entries <;> cas_mat <;>
+    first
+    | ring1
+    | linear_combination (a 6 ^ 2 + a 7 ^ 2 + a 8 ^ 2 + a 9 ^ 2 + 1) * h'
+theorem toMatrix_inverse_right (a : Fin 10 → ℝ) (h : qnormSq (rot a) = 1) :
+    SE23Quat.toMatrix.M_mat a * SE23Quat.toMatrix.M_mat (SE23Quat.inverse.r_vec a) = 1 :=
+  mul_eq_one_comm.mp (toMatrix_inverse_left a h)
+theorem identity_left (a : Fin 10 → ℝ) : SE23Quat.product.r_vec (SE23Quat.identity.r_vec) a = a := by
+  funext i; fin_cases i <;> cas_mat
+theorem identity_right (a : Fin 10 → ℝ) : SE23Quat.product.r_vec a (SE23Quat.identity.r_vec) = a := by
+  funext i; fin_cases i <;> cas_mat
+end SE23Quat
+
+namespace SE23Mrp
+def rot (a : Fin 9 → ℝ) : Fin 3 → ℝ := ![a 6, a 7, a 8]
+def pos (a : Fin 9 → ℝ) : Fin 3 → ℝ := ![a 0, a 1, a 2]
+def vel (a : Fin 9 → ℝ) : Fin 3 → ℝ := ![a 3, a 4, a 5]
+
+theorem toMatrix_spec (a : Fin 9 → ℝ) :
+    SE23Mrp.toMatrix.M_mat a = se23Mat (mrpMat (rot a)) (vel a) (pos a) := by
+  have h : (1 + (a 6 * a 6 + a 7 * a 7 + a 8 * a 8)) ≠ 0 := by
+    nlinarith [mul_self_nonneg (a 6), mul_self_nonneg (a 7), mul_self_nonneg (a 8)]
+  have h' : (1 + (a 6 ^ 2 + a 7 ^ 2 + a 8 ^ 2)) ≠ 0 := by positivity
+  mat_entries <;> simp [cas_defs, cas_real, se23Mat, mrpMat, qmat, mrpQ, nsq, rot, pos, vel] <;>
+    field_simp <;> ring
+theorem product_rot (a b : Fin 9 → ℝ) :
+    rot (SE23Mrp.product.r_vec a b) = mrpMul (rot a) (rot b) := by
+  funext i; fin_cases i <;>
+    simp [cas_defs, cas_real, rot, mrpMul, mrpNum, mrpDen, nsq, dot3, cross] <;> ring
+theorem product_pos (a b : Fin 9 → ℝ) :
+    pos (SE23Mrp.product.r_vec a b) = (mrpMat (rot a)).mulVec (pos b) + pos a := by
+  have h : (1 + (a 6 * a 6 + a 7 * a 7 + a 8 * a 8)) ≠ 0 := by
+    nlinarith [mul_self_nonneg (a 6), mul_self_nonneg (a 7), mul_self_nonneg (a 8)]
+  have h' : (1 + (a 6 ^ 2 + a 7 ^ 2 + a 8 ^ 2)) ≠ 0 := by positivity
+  funext i; fin_cases i <;>
+    simp [cas_defs, cas_real, rot, pos, mrpMat, qmat, mrpQ, nsq] <;> field_simp <;> ring
+theorem product_vel (a b : Fin 9 → ℝ) :
+    vel (SE23Mrp.product.r_vec a b) = (mrpMat (rot a)).mulVec (vel b) + vel a := by
+  have h : (1 + (a 6 * a 6 + a 7 * a 7 + a 8 * a 8)) ≠ 0 := by
+    nlinarith [mul_self_nonneg (a 6), mul_self_nonneg (a 7), mul_self_nonneg (a 8)]
+  have h' : (1 + (a 6 ^ 2 + a 7 ^ 2 + a 8 ^ 2)) ≠ 0 := by positivity
+  funext i; fin_cases i <;>
+    simp [cas_defs, cas_real, rot, vel, mrpMat, qmat, mrpQ, nsq] <;> field_simp <;> ring
+theorem toMatrix_product (a b : Fin 9 → ℝ) (h : mrpDen (rot a) (rot b) ≠ 0) :
+    SE23Mrp.toMatrix.M_mat (SE23Mrp.product.r_vec a b)
+      = SE23Mrp.toMatrix.M_mat a * SE23Mrp.toMatrix.M_mat b := by
+  rw [toMatrix_spec, toMatrix_spec, toMatrix_spec, se23Mat_mul, product_rot, product_pos, product_vel,
+    mrpMat_mul _ _ h]
+theorem toMatrix_identity : SE23Mrp.toMatrix.M_mat (SE23Mrp.identity.r_vec (α := ℝ)) = 1 := by
+  mat_entries <;> simp [cas_defs, cas_real]
+theorem inverse_rot (a : Fin 9 → ℝ) : rot (SE23Mrp.inverse.r_vec a) = -rot a := by
+  funext i; fin_cases i <;> simp [cas_defs, cas_real, rot]
+theorem inverse_pos (a : Fin 9 → ℝ) :
+    pos (SE23Mrp.inverse.r_vec a) = -((mrpMat (-rot a)).mulVec (pos a)) := by
+  have h : (1 + (a 6 * a 6 + a 7 * a 7 + a 8 * a 8)) ≠ 0 := by
+    nlinarith [mul_self_nonneg (a 6), mul_self_nonneg (a 7), mul_self_nonneg (a 8)]
+  have h' : (1 + (a 6 ^ 2 + a 7 ^ 2 + a 8 ^ 2)) ≠ 0 := by positivity
+  funext i; fin_cases i <;>
+    simp [cas_defs, cas_real, rot, pos, mrpMat, qmat, mrpQ, nsq] <;> field_simp <;> ring
+theorem inverse_vel (a : Fin 9 → ℝ) :
+    vel (SE23Mrp.inverse.r_vec a) = -((mrpMat (-rot a)).mulVec (vel a)) := by
+  have h : (1 + (a 6 * a 6 + a 7 * a 7 + a 8 * a 8)) ≠ 0 := by
+    nlinarith [mul_self_nonneg (a 6), mul_self_nonneg (a 7), mul_self_nonneg (a 8)]
+  have h' : (1 + (a 6 ^ 2 + a 7 ^ 2 + a 8 ^ 2)) ≠ 0 := by positivity
+  funext i; fin_cases i <;>
+    simp [cas_defs, cas_real, rot, vel, mrpMat, qmat, mrpQ, nsq] <;> field_simp <;> ring
+theorem toMatrix_inverse_left (a : Fin 9 → ℝ) :
+    SE23Mrp.toMatrix.M_mat (SE23Mrp.inverse.r_vec a) * SE23Mrp.toMatrix.M_mat a = 1 := by
+  rw [toMatrix_spec, toMatrix_spec, se23Mat_mul, inverse_rot, inverse_pos, inverse_vel, mrpMat_neg_mul]
+  rw [← se23Mat_one]; congr 1 <;> simp
+theorem toMatrix_inverse_right (a : Fin 9 → ℝ) :
+    SE23Mrp.toMatrix.M_mat a * SE23Mrp.toMatrix.M_mat (SE23Mrp.inverse.r_vec a) = 1 :=
+  mul_eq_one_comm.mp (toMatrix_inverse_left a)
+theorem identity_left (a : Fin 9 → ℝ) : SE23Mrp.product.r_vec (SE23Mrp.identity.r_vec) a = a := by
+  funext i; fin_cases i <;> cas_mat
+theorem identity_right (a : Fin 9 → ℝ) : SE23Mrp.product.r_vec a (SE23Mrp.identity.r_vec) = a := by
+  funext i; fin_cases i <;> cas_mat
+end SE23Mrp
+
 end C01
